@@ -176,12 +176,16 @@ def disjuncts : Cond ColRef → List (Cond ColRef)
 def NoAnd (ts : List Tok) : Prop := ts.head? ≠ some .and_
 def NoOr (ts : List Tok) : Prop := ts.head? ≠ some .or_
 
+/-- fuel: three units per printed token are enough (one per level of the
+disjunction / conjunction / atom descent) -/
 def AtomOK (t : Cond ColRef) : Prop :=
-  ∃ n0, ∀ n, n0 ≤ n → ∀ rest, parseAtom n (pr 2 t ++ rest) = .ok (t, rest)
+  ∀ n, 3 * (pr 2 t).length ≤ n + 2 → ∀ rest, parseAtom n (pr 2 t ++ rest) = .ok (t, rest)
 def ConjOK (t : Cond ColRef) : Prop :=
-  ∃ n0, ∀ n, n0 ≤ n → ∀ rest, NoAnd rest → parseConjList n (pr 1 t ++ rest) = .ok (conjuncts t, rest)
+  ∀ n, 3 * (pr 1 t).length ≤ n + 1 → ∀ rest, NoAnd rest →
+    parseConjList n (pr 1 t ++ rest) = .ok (conjuncts t, rest)
 def DisjOK (t : Cond ColRef) : Prop :=
-  ∃ n0, ∀ n, n0 ≤ n → ∀ rest, NoAnd rest → NoOr rest → parseDisjList n (pr 0 t ++ rest) = .ok (disjuncts t, rest)
+  ∀ n, 3 * (pr 0 t).length ≤ n → ∀ rest, NoAnd rest → NoOr rest →
+    parseDisjList n (pr 0 t ++ rest) = .ok (disjuncts t, rest)
 
 theorem tokLit_litTok (l : Lit) : tokLit (litTok l) = some l := by cases l <;> rfl
 
@@ -195,8 +199,8 @@ theorem parseStmt_print (c : ColRef) (op : Op) (l : Lit) (h : litAllowed op l = 
   simp [parseStmt, tokLit_litTok, hn, h]
 
 theorem leafOK (op : Op) (c : ColRef) (l : Lit) (h : litAllowed op l = true) : AtomOK (.leaf op c l) := by
-  refine ⟨1, fun n hn rest => ?_⟩
-  obtain ⟨m, rfl⟩ : ∃ m, n = m + 1 := ⟨n - 1, by omega⟩
+  intro n hn rest
+  obtain ⟨m, rfl⟩ : ∃ m, n = m + 1 := ⟨n - 1, by simp [pr] at hn; omega⟩
   simp only [pr, List.cons_append, List.nil_append]
   unfold colTok
   split
@@ -205,8 +209,6 @@ theorem leafOK (op : Op) (c : ColRef) (l : Lit) (h : litAllowed op l = true) : A
     rw [parseAtom, parseStmt_print _ _ _ h, ← this]
   · rw [parseAtom, parseStmt_print _ _ _ h]
 
-
-
 theorem prList_cons_cons (sep : Tok) (lvl : Nat) (c c' : Cond ColRef) (cs : List (Cond ColRef)) :
     prList sep lvl (c :: c' :: cs) = pr lvl c ++ sep :: prList sep lvl (c' :: cs) := by
   rw [prList]
@@ -214,26 +216,49 @@ theorem prList_cons_cons (sep : Tok) (lvl : Nat) (c c' : Cond ColRef) (cs : List
 theorem prList_single (sep : Tok) (lvl : Nat) (c : Cond ColRef) : prList sep lvl [c] = pr lvl c := by
   rw [prList]; simp
 
+/-- a normal-form tree prints to at least one token at every level -/
+theorem pr_pos (lvl : Nat) (t : Cond ColRef) (h : nf t = true) : 0 < (pr lvl t).length := by
+  cases t with
+  | leaf op c l => simp [pr]
+  | not c => simp [pr]
+  | and cs =>
+    simp only [nf, Bool.and_eq_true, decide_eq_true_eq] at h
+    match cs, h with
+    | a :: b :: cs, _ =>
+      rw [pr]; split
+      · rw [prList_cons_cons]; simp; omega
+      · simp
+  | or cs =>
+    simp only [nf, Bool.and_eq_true, decide_eq_true_eq] at h
+    match cs, h with
+    | a :: b :: cs, _ =>
+      rw [pr]; split
+      · rw [prList_cons_cons]; simp; omega
+      · simp
+
 /-- atoms joined by AND parse back to the list of atoms -/
-theorem conjList_ok : (cs : List (Cond ColRef)) → cs ≠ [] → (∀ c ∈ cs, AtomOK c) →
-    ∃ n0, ∀ n, n0 ≤ n → ∀ rest, NoAnd rest →
+theorem conjList_ok : (cs : List (Cond ColRef)) → cs ≠ [] → (∀ c ∈ cs, AtomOK c ∧ 0 < (pr 2 c).length) →
+    ∀ n, 3 * (prList .and_ 2 cs).length ≤ n + 1 → ∀ rest, NoAnd rest →
       parseConjList n (prList .and_ 2 cs ++ rest) = .ok (cs, rest)
   | [], h, _ => absurd rfl h
   | [c], _, hall => by
-    obtain ⟨n0, hc⟩ := hall c (by simp)
-    refine ⟨n0 + 1, fun n hn rest hrest => ?_⟩
+    obtain ⟨hc, hpos⟩ := hall c (by simp)
+    intro n hn rest hrest
+    rw [prList_single] at hn ⊢
     obtain ⟨m, rfl⟩ : ∃ m, n = m + 1 := ⟨n - 1, by omega⟩
-    rw [prList_single, parseConjList, hc m (by omega)]
+    rw [parseConjList, hc m (by omega)]
     simp only
     split
     · exact absurd rfl hrest
     · rfl
   | c :: c' :: cs, _, hall => by
-    obtain ⟨n0, hc⟩ := hall c (by simp)
-    obtain ⟨n1, hcs⟩ := conjList_ok (c' :: cs) (by simp) (fun x hx => hall x (by simp [hx]))
-    refine ⟨n0 + n1 + 1, fun n hn rest hrest => ?_⟩
+    obtain ⟨hc, hpos⟩ := hall c (by simp)
+    have hcs := conjList_ok (c' :: cs) (by simp) (fun x hx => hall x (by simp [hx]))
+    intro n hn rest hrest
+    rw [prList_cons_cons] at hn ⊢
+    simp only [List.length_append, List.length_cons] at hn
     obtain ⟨m, rfl⟩ : ∃ m, n = m + 1 := ⟨n - 1, by omega⟩
-    rw [prList_cons_cons, List.append_assoc, List.cons_append, parseConjList, hc m (by omega)]
+    rw [List.append_assoc, List.cons_append, parseConjList, hc m (by omega)]
     simp only
     rw [hcs m (by omega) rest hrest]
 
@@ -258,37 +283,41 @@ theorem mkJunction_disjuncts (t : Cond ColRef) (h : nf t = true) : mkJunction fa
     | a :: b :: cs, _ => rfl
 
 /-- conjunctions joined by OR parse back to the list of conjunctions -/
-theorem disjList_ok : (cs : List (Cond ColRef)) → cs ≠ [] → (∀ c ∈ cs, ConjOK c ∧ nf c = true) →
-    ∃ n0, ∀ n, n0 ≤ n → ∀ rest, NoAnd rest → NoOr rest →
+theorem disjList_ok : (cs : List (Cond ColRef)) → cs ≠ [] →
+    (∀ c ∈ cs, ConjOK c ∧ nf c = true) →
+    ∀ n, 3 * (prList .or_ 1 cs).length ≤ n → ∀ rest, NoAnd rest → NoOr rest →
       parseDisjList n (prList .or_ 1 cs ++ rest) = .ok (cs, rest)
   | [], h, _ => absurd rfl h
   | [c], _, hall => by
-    obtain ⟨⟨n0, hc⟩, hnf⟩ := hall c (by simp)
-    refine ⟨n0 + 1, fun n hn rest hrest hor => ?_⟩
+    obtain ⟨hc, hnf⟩ := hall c (by simp)
+    have hpos := pr_pos 1 c hnf
+    intro n hn rest hrest hor
+    rw [prList_single] at hn ⊢
     obtain ⟨m, rfl⟩ : ∃ m, n = m + 1 := ⟨n - 1, by omega⟩
-    rw [prList_single, parseDisjList, hc m (by omega) rest hrest]
+    rw [parseDisjList, hc m (by omega) rest hrest]
     simp only [mkJunction_conjuncts c hnf]
     split
     · exact absurd rfl hor
     · rfl
   | c :: c' :: cs, _, hall => by
-    obtain ⟨⟨n0, hc⟩, hnf⟩ := hall c (by simp)
-    obtain ⟨n1, hcs⟩ := disjList_ok (c' :: cs) (by simp) (fun x hx => hall x (by simp [hx]))
-    refine ⟨n0 + n1 + 1, fun n hn rest hrest hor => ?_⟩
+    obtain ⟨hc, hnf⟩ := hall c (by simp)
+    have hpos := pr_pos 1 c hnf
+    have hcs := disjList_ok (c' :: cs) (by simp) (fun x hx => hall x (by simp [hx]))
+    intro n hn rest hrest hor
+    rw [prList_cons_cons] at hn ⊢
+    simp only [List.length_append, List.length_cons] at hn
     obtain ⟨m, rfl⟩ : ∃ m, n = m + 1 := ⟨n - 1, by omega⟩
-    rw [prList_cons_cons, List.append_assoc, List.cons_append, parseDisjList,
+    rw [List.append_assoc, List.cons_append, parseDisjList,
       hc m (by omega) _ (by simp [NoAnd])]
     simp only [mkJunction_conjuncts c hnf]
     rw [hcs m (by omega) rest hrest hor]
 
-
-
-theorem atom_to_conj (t : Cond ColRef) (h : AtomOK t) (hp : pr 1 t = pr 2 t) (hc : conjuncts t = [t]) :
-    ConjOK t := by
-  obtain ⟨n0, ht⟩ := h
-  refine ⟨n0 + 1, fun n hn rest hrest => ?_⟩
+theorem atom_to_conj (t : Cond ColRef) (h : AtomOK t) (hpos : 0 < (pr 2 t).length)
+    (hp : pr 1 t = pr 2 t) (hc : conjuncts t = [t]) : ConjOK t := by
+  intro n hn rest hrest
+  rw [hp] at hn ⊢
   obtain ⟨m, rfl⟩ : ∃ m, n = m + 1 := ⟨n - 1, by omega⟩
-  rw [hp, hc, parseConjList, ht m (by omega)]
+  rw [hc, parseConjList, h m (by omega)]
   simp only
   split
   · exact absurd rfl hrest
@@ -296,10 +325,11 @@ theorem atom_to_conj (t : Cond ColRef) (h : AtomOK t) (hp : pr 1 t = pr 2 t) (hc
 
 theorem conj_to_disj (t : Cond ColRef) (h : ConjOK t) (hnf : nf t = true) (hp : pr 0 t = pr 1 t)
     (hd : disjuncts t = [t]) : DisjOK t := by
-  obtain ⟨n0, ht⟩ := h
-  refine ⟨n0 + 1, fun n hn rest hrest hor => ?_⟩
+  have hpos := pr_pos 1 t hnf
+  intro n hn rest hrest hor
+  rw [hp] at hn ⊢
   obtain ⟨m, rfl⟩ : ∃ m, n = m + 1 := ⟨n - 1, by omega⟩
-  rw [hp, hd, parseDisjList, ht m (by omega) rest hrest]
+  rw [hd, parseDisjList, h m (by omega) rest hrest]
   simp only [mkJunction_conjuncts t hnf]
   split
   · exact absurd rfl hor
@@ -307,23 +337,23 @@ theorem conj_to_disj (t : Cond ColRef) (h : ConjOK t) (hnf : nf t = true) (hp : 
 
 theorem disj_to_atom_paren (t : Cond ColRef) (h : DisjOK t) (hnf : nf t = true)
     (hp : pr 2 t = .lparen :: pr 0 t ++ [.rparen]) : AtomOK t := by
-  obtain ⟨n0, ht⟩ := h
-  refine ⟨n0 + 1, fun n hn rest => ?_⟩
+  intro n hn rest
+  rw [hp] at hn ⊢
+  simp only [List.length_cons, List.length_append, List.length_nil] at hn
   obtain ⟨m, rfl⟩ : ∃ m, n = m + 1 := ⟨n - 1, by omega⟩
-  rw [hp]
   simp only [List.cons_append, List.append_assoc, List.nil_append]
-  rw [parseAtom, ht m (by omega) _ (by simp [NoAnd]) (by simp [NoOr])]
+  rw [parseAtom, h m (by omega) _ (by simp [NoAnd]) (by simp [NoOr])]
   simp only [mkJunction_disjuncts t hnf]
 
 theorem not_atom (c : Cond ColRef) (h : DisjOK c) (hnf : nf c = true) : AtomOK (.not c) := by
-  obtain ⟨n0, ht⟩ := h
-  refine ⟨n0 + 4, fun n hn rest => ?_⟩
-  obtain ⟨m, rfl⟩ : ∃ m, n = m + 4 := ⟨n - 4, by omega⟩
+  intro n hn rest
   have hpr : pr 2 (.not c) = .lparen :: .not_ :: pr 0 c ++ [.rparen] := by rw [pr]
-  rw [hpr]
+  rw [hpr] at hn ⊢
+  simp only [List.length_cons, List.length_append, List.length_nil] at hn
+  obtain ⟨m, rfl⟩ : ∃ m, n = m + 4 := ⟨n - 4, by omega⟩
   simp only [List.cons_append, List.append_assoc, List.nil_append]
   rw [parseAtom, parseDisjList, parseConjList, parseAtom,
-    ht m (by omega) _ (by simp [NoAnd]) (by simp [NoOr])]
+    h m (by omega) _ (by simp [NoAnd]) (by simp [NoOr])]
   simp only [mkJunction_disjuncts c hnf]
   rfl
 
@@ -331,21 +361,22 @@ mutual
 theorem allOK : (t : Cond ColRef) → nf t = true → AtomOK t ∧ ConjOK t ∧ DisjOK t
   | .leaf op c l, h => by
     have ha : AtomOK (.leaf op c l) := leafOK op c l (by simpa [nf] using h)
-    have hc := atom_to_conj _ ha (by simp [pr]) rfl
+    have hc := atom_to_conj _ ha (pr_pos 2 _ h) (by simp [pr]) rfl
     exact ⟨ha, hc, conj_to_disj _ hc h (by simp [pr]) rfl⟩
   | .not c, h => by
     have hnf : nf c = true := by simpa [nf] using h
     have ih := allOK c hnf
     have ha : AtomOK (.not c) := not_atom c ih.2.2 hnf
-    have hc := atom_to_conj _ ha (by simp [pr]) rfl
+    have hc := atom_to_conj _ ha (pr_pos 2 _ h) (by simp [pr]) rfl
     exact ⟨ha, hc, conj_to_disj _ hc h (by simp [pr]) rfl⟩
   | .and cs, h => by
     have h' : 2 ≤ cs.length ∧ nfList cs = true := by simpa [nf] using h
     have ih := allOKList cs h'.2
     have hne : cs ≠ [] := by intro e; subst e; simp at h'
     have hc : ConjOK (.and cs) := by
-      obtain ⟨n0, hl⟩ := conjList_ok cs hne (fun c hc => (ih c hc).1.1)
-      exact ⟨n0, fun n hn rest hrest => by simpa [pr, conjuncts] using hl n hn rest hrest⟩
+      have hl := conjList_ok cs hne (fun c hc => ⟨(ih c hc).1.1, pr_pos 2 c (ih c hc).2⟩)
+      intro n hn rest hrest
+      simpa [pr, conjuncts] using hl n (by simpa [pr] using hn) rest hrest
     have hd := conj_to_disj _ hc h (by simp [pr]) rfl
     exact ⟨disj_to_atom_paren _ hd h (by simp [pr]), hc, hd⟩
   | .or cs, h => by
@@ -353,10 +384,11 @@ theorem allOK : (t : Cond ColRef) → nf t = true → AtomOK t ∧ ConjOK t ∧ 
     have ih := allOKList cs h'.2
     have hne : cs ≠ [] := by intro e; subst e; simp at h'
     have hd : DisjOK (.or cs) := by
-      obtain ⟨n0, hl⟩ := disjList_ok cs hne (fun c hc => ⟨(ih c hc).1.2.1, (ih c hc).2⟩)
-      exact ⟨n0, fun n hn rest hrest hor => by simpa [pr, disjuncts] using hl n hn rest hrest hor⟩
+      have hl := disjList_ok cs hne (fun c hc => ⟨(ih c hc).1.2.1, (ih c hc).2⟩)
+      intro n hn rest hrest hor
+      simpa [pr, disjuncts] using hl n (by simpa [pr] using hn) rest hrest hor
     have ha := disj_to_atom_paren _ hd h (by simp [pr])
-    exact ⟨ha, atom_to_conj _ ha (by simp [pr]) rfl, hd⟩
+    exact ⟨ha, atom_to_conj _ ha (pr_pos 2 _ h) (by simp [pr]) rfl, hd⟩
 theorem allOKList : (cs : List (Cond ColRef)) → nfList cs = true →
     ∀ c ∈ cs, (AtomOK c ∧ ConjOK c ∧ DisjOK c) ∧ nf c = true
   | [], _ => by intro c hc; simp at hc
@@ -367,8 +399,6 @@ theorem allOKList : (cs : List (Cond ColRef)) → nfList cs = true →
     · rw [hx]; exact ⟨allOK c h'.1, h'.1⟩
     · exact allOKList cs h'.2 x hx
 end
-
-
 
 def printWheres (ws : List (Cond ColRef)) : List Tok := ws.flatMap (fun w => .where_ :: pr 0 w)
 
@@ -392,26 +422,33 @@ def NoName : List Tok → Prop
   | _ => True
 
 theorem parseDisj_print (t : Cond ColRef) (h : nf t = true) :
-    ∃ n0, ∀ n, n0 ≤ n → ∀ rest, NoAnd rest → NoOr rest → parseDisj n (pr 0 t ++ rest) = .ok (t, rest) := by
-  obtain ⟨n0, hd⟩ := (allOK t h).2.2
-  refine ⟨n0, fun n hn rest ha ho => ?_⟩
-  rw [parseDisj, hd n hn rest ha ho]
+    ∀ n, 3 * (pr 0 t).length ≤ n → ∀ rest, NoAnd rest → NoOr rest →
+      parseDisj n (pr 0 t ++ rest) = .ok (t, rest) := by
+  intro n hn rest ha ho
+  rw [parseDisj, (allOK t h).2.2 n hn rest ha ho]
   simp only [mkJunction_disjuncts t h]
 
+theorem printWheres_cons (w : Cond ColRef) (ws : List (Cond ColRef)) :
+    printWheres (w :: ws) = .where_ :: (pr 0 w ++ printWheres ws) := by
+  simp [printWheres]
+
 theorem parseWheres_print : (ws : List (Cond ColRef)) → (∀ w ∈ ws, nf w = true) →
-    ∃ n0, ∀ f n, n0 ≤ f → n0 ≤ n → ∀ rest, NoAnd rest → NoOr rest → NoWhere rest →
+    ∀ f n, 3 * (printWheres ws).length ≤ f → (printWheres ws).length < n →
+      ∀ rest, NoAnd rest → NoOr rest → NoWhere rest →
       parseWheres f n (printWheres ws ++ rest) = .ok (ws, rest)
   | [], _ => by
-    refine ⟨1, fun f n _ hn rest _ _ hw => ?_⟩
+    intro f n _ hn rest _ _ hw
     obtain ⟨m, rfl⟩ : ∃ m, n = m + 1 := ⟨n - 1, by omega⟩
     simp only [printWheres, List.flatMap_nil, List.nil_append]
     cases rest with
     | nil => simp [parseWheres]
     | cons t ts => cases t <;> first | exact absurd rfl hw | simp [parseWheres]
   | w :: ws, h => by
-    obtain ⟨n0, hw⟩ := parseDisj_print w (h w (by simp))
-    obtain ⟨n1, hws⟩ := parseWheres_print ws (fun x hx => h x (by simp [hx]))
-    refine ⟨n0 + n1 + 1, fun f n hf hn rest ha ho hwh => ?_⟩
+    have hw := parseDisj_print w (h w (by simp))
+    have hws := parseWheres_print ws (fun x hx => h x (by simp [hx]))
+    intro f n hf hn rest ha ho hwh
+    rw [printWheres_cons] at hf hn
+    simp only [List.length_cons, List.length_append] at hf hn
     obtain ⟨m, rfl⟩ : ∃ m, n = m + 1 := ⟨n - 1, by omega⟩
     have e : printWheres (w :: ws) ++ rest = .where_ :: (pr 0 w ++ (printWheres ws ++ rest)) := by
       simp [printWheres]
@@ -499,16 +536,18 @@ theorem parseProj_print (proj : Proj) (rels : List String) (hp : ProjOK proj rel
 
 theorem parseSelect_print_aux (proj : Proj) (rels : List String) (ws : List (Cond ColRef))
     (hp : ProjOK proj rels) (hw : ∀ w ∈ ws, nf w = true) :
-    ∃ n0, ∀ n, n0 ≤ n →
+    ∀ n, 3 * (printQuery proj rels ws).length ≤ n →
       parseSelect n (printQuery proj rels ws) = .ok { proj := proj, rels := rels, cond := whereCond ws } := by
-  obtain ⟨n0, hws⟩ := parseWheres_print ws hw
-  refine ⟨n0, fun n hn => ?_⟩
+  intro n hn
+  have hlen : (printWheres ws).length + 1 ≤ (printQuery proj rels ws).length := by
+    simp only [printQuery, List.length_append, List.length_cons, List.length_nil]; omega
+  have hws := parseWheres_print ws hw n n (by omega) (by omega)
   unfold parseSelect printQuery
   rw [parseProj_print proj rels hp _ (noName_from rels ws)]
   simp only
   rw [parseFrom_print]
   simp only
-  rw [hws n n hn hn [.dot] (by simp [NoAnd]) (by simp [NoOr]) (by simp [NoWhere])]
+  rw [hws [.dot] (by simp [NoAnd]) (by simp [NoOr]) (by simp [NoWhere])]
   simp only [List.all_nil, Bool.not_true]
   cases proj with
   | star =>
